@@ -200,6 +200,11 @@ func (bsp *batchSpanProcessor) ForceFlush(ctx context.Context) error {
 				return ctx.Err()
 			}
 		}
+		// The flush marker may not have been enqueued (or waited for) because ctx
+		// is done: queued spans have not been exported, do not report success.
+		if err := ctx.Err(); err != nil {
+			return err
+		}
 
 		wait := make(chan error, 1)
 		go func() {
